@@ -60,6 +60,11 @@ static const char *ERRN[] = {
   "ECONF_ARGUMENT_IS_NULL_VALUE", "ECONF_OPTION_NOT_FOUND", "ECONF_VALUE_CONVERSION_ERROR" };
 #define NERR ((int)(sizeof ERRN / sizeof ERRN[0]))
 
+/* link-time wrapper (-Wl,--wrap=close): closes of descriptors that are not open */
+static _Atomic int stale_closes;
+int __real_close(int fd);
+int __wrap_close(int fd) { int r = __real_close(fd); if (r != 0 && errno == EBADF) stale_closes++; return r; }
+
 struct ctx {                 /* one interpreter (one per thread in thread mode) */
   FILE *out;
   econf_file *H[NH];
@@ -79,6 +84,8 @@ struct ctx {                 /* one interpreter (one per thread in thread mode) 
                                 application that keeps them in a struct or on its stack does (same address, other content) */
   int cb_yield;              /* scheduled thread mode: the callback hands the turn over and waits for its next slot */
   char *cb_read_path;        /* the callback itself reads this file with the library (an allow-list, say) before it answers */
+  int cb_openfd, cb_fds[64], cb_nfds;   /* the callback opens a descriptor of its own at every call (an application that logs, say) and keeps it:
+                                           nothing the library does later may close it (fdcheck) */
   char *cb_rd[4];            /* ... or performs a nested LAYERED read (usr dir, etc dir, name, suffix) with its own main file and drop-ins */
 };
 
@@ -192,6 +199,7 @@ static bool the_callback(const char *filename, const void *data) {
   if (c->cb_rd[2]) {
     econf_file *inner = NULL; econf_err ie = econf_readDirs(&inner, c->cb_rd[0], c->cb_rd[1], c->cb_rd[2], c->cb_rd[3], "=", "#"); (void)ie; econf_freeFile(inner);
   }
+  if (c->cb_openfd && c->cb_nfds < 64) { int fd = open("/dev/null", O_RDONLY | O_CLOEXEC); if (fd >= 0) c->cb_fds[c->cb_nfds++] = fd; }
   bool verdict = true;
   if (c->cb_calls <= 64 && (c->cb_reject_mask >> (c->cb_calls - 1) & 1)) verdict = false;
   if (c->cb_reject_path && samepath(c->cb_reject_path, filename)) verdict = false;
@@ -383,6 +391,14 @@ static int run_cmd(struct ctx *c, char **t, int nt) {
   if (!strcmp(op, "cbreaddirs")) { for (int i = 0; i < 4; i++) { free(c->cb_rd[i]); c->cb_rd[i] = tokstr(ARG(1 + i), NULL); } return 0; }
   if (!strcmp(op, "cbread")) { free(c->cb_read_path); c->cb_read_path = tokstr(ARG(1), NULL); return 0; }
   if (!strcmp(op, "cbreset")) { cb_reset(c); return 0; }
+  if (!strcmp(op, "cbopenfd")) { c->cb_openfd = atoi(ARG(1)); return 0; }
+  if (!strcmp(op, "fdcheck")) {   /* every descriptor the callback opened is still open and still the same file; they are closed here */
+    int bad = 0; struct stat sn, sb; int have = stat("/dev/null", &sn) == 0;
+    for (int i = 0; i < c->cb_nfds; i++) {
+      if (fstat(c->cb_fds[i], &sb) != 0 || !have || !S_ISCHR(sb.st_mode) || sb.st_rdev != sn.st_rdev) bad++;
+      else close(c->cb_fds[i]); }
+    bad += stale_closes; stale_closes = 0;       /* ... and nothing closed a descriptor that was not open */
+    fprintf(o, "{\"op\":\"fdcheck\",\"n\":%d,\"bad\":%d}\n", c->cb_nfds, bad); c->cb_nfds = 0; return 0; }
   if (!strcmp(op, "cbrejectk")) { c->cb_reject_mask = strtoull(ARG(1), NULL, 10); return 0; }
   if (!strcmp(op, "cbrejectpath")) { free(c->cb_reject_path); c->cb_reject_path = tokstr(ARG(1), NULL); return 0; }
   if (!strcmp(op, "cbdel")) { if (c->cb_ndel < 8) { int i = c->cb_ndel++; c->cb_del_trigger[i] = tokstr(ARG(1), NULL); c->cb_del_victim[i] = tokstr(ARG(2), NULL); } return 0; }
